@@ -1,4 +1,5 @@
 import PsV.Spec.BSpline
+import PsV.Model.DerivAbs
 import PsV.Driver.Common
 /-!
 Driver for the evaluation correspondences (C01, C02, C03 tie, C04, C05).
@@ -6,7 +7,11 @@ Driver for the evaluation correspondences (C01, C02, C03 tie, C04, C05).
 Lines
   `T ndim (order nknots stride padded-knot-bits{nknots+2*order})*ndim ncoef coef-bits32{ncoef}`
   `S xbits*`                               lookup on order-isomorphic keys (NaN → none)
-  `V prec mask xbits* centers*`            ndsplineeval at F64/F32 (bits) + exact model, spec, magnitude
+  `V prec mask xbits* centers*`            ndsplineeval at F64/F32 (bits) + exact model, spec, magnitude, cmax, proved majorant
+                                           (`evalModesAbs` of the |coef| table: the majorant of `C02_rounding_envelope_partial`; `-` when a
+                                           dimension uses the recursive arbitrary-order routine)
+  `GX xbits* centers*`                     exact gradient lanes and their proved majorants (`C02_gradient_rounding_envelope`):
+                                           `e_0 m_0 e_1 m_1 …`, or `refused` / `inexact`
   `D prec k* xbits* centers*`              ndsplineeval_deriv likewise
   `G prec xbits* centers*`                 gradient lanes (bits only)
   `B prec xbits* centers*`                 bits only for mask 0 (cheap; no exact part)
@@ -137,6 +142,10 @@ instance : Inhabited DState := ⟨⟨default, ⟨[], fun _ => 0⟩, 0⟩⟩
 def mkState (t : RawTable) : DState :=
   ⟨t, t.toRat, t.coef.foldl (fun m u => let r := ratAbs ((ratOfBits (Float32.ofBits u).toFloat.toBits).getD 0); if m < r then r else m) (0 : Rat)⟩
 
+/-- the rounding theorems of C02 cover rows of plain values and single derivatives -/
+def provedModes (ms : List BasisMode) : Bool :=
+  ms.all fun m => match m with | .value => true | .deriv1 => true | .derivK _ => false
+
 def exactPart (st : DState) (xs : List UInt64) (cs : List Nat) (ms : List BasisMode) : String :=
   match xs.mapM ratOfBits with
   | none => "inexact"
@@ -146,7 +155,21 @@ def exactPart (st : DState) (xs : List UInt64) (cs : List Nat) (ms : List BasisM
     let rows := specRows T.dims xr ms
     let spec := specSum T.coef rows Arith.one 0
     let mag := specSum (absTable T).coef (magRows T.dims xr ms) Arith.one 0
-    s!"{showRat model} {showRat spec} {showRat mag} {showRat st.cmax}"
+    let maj := if provedModes ms then showRat (evalModesAbs (absTable T) xr cs ms) else "-"
+    s!"{showRat model} {showRat spec} {showRat mag} {showRat st.cmax} {maj}"
+
+/-- exact lanes of `ndsplineeval_gradient` and the majorant `ndsplineevalAbs |T| x c (laneMask lane)` of each -/
+def gradExact (st : DState) (xs : List UInt64) (cs : List Nat) : String :=
+  match xs.mapM ratOfBits with
+  | none => "inexact"
+  | some xr =>
+    let T := st.rat
+    match ndsplineevalGradient maxDimDefault T xr cs with
+    | none => "refused"
+    | some lanes =>
+      let majs := (List.range (T.dims.length + 1)).map fun lane =>
+        ndsplineevalAbs (absTable T) xr cs (laneMask lane)
+      " ".intercalate ((lanes.zip majs).map fun (e, m) => s!"{showRat e} {showRat m}")
 
 def evalBits (t : RawTable) (prec : String) (xs : List UInt64) (cs : List Nat) (ms : List BasisMode) : UInt64 :=
   if prec == "d" then cbits (evalModes t.toF64 (xs.map fun u => (⟨Float.ofBits u⟩ : F64)) cs ms).v
@@ -204,6 +227,11 @@ def step (ds : DState) (ws : List String) : DState × String :=
       match r with
       | none => (ds, "refused")
       | some l => (ds, " ".intercalate (l.map toString))
+    | _, _ => (ds, "bad-input")
+  | "GX" :: rest =>
+    match bitsList (rest.take nd), natList (rest.drop nd) with
+    | some xs, some cs =>
+      if xs.length ≠ nd || cs.length ≠ nd then (ds, "bad-input") else (ds, gradExact ds xs cs)
     | _, _ => (ds, "bad-input")
   | "D" :: prec :: rest =>
     match natList (rest.take nd), bitsList ((rest.drop nd).take nd), natList (rest.drop (2*nd)) with
